@@ -293,9 +293,43 @@ fn slot_text(p: Pos, t: &Tok) -> Option<String> {
             let j: serde_json::Value = serde_json::from_str(s).ok()?;
             j.get("k")?.as_str().map(|x| x.to_string())
         }
+        // Postgres also accepts an array as one constant in array-literal syntax: '{"a","b"}'
+        (Pos::PgArray | Pos::PgArrayDefault, Tok::Str(s)) if s.starts_with('{') && s.ends_with('}') => pg_array_first_element(s),
         (_, Tok::Str(s)) => Some(s.clone()),
         _ => None,
     }
+}
+
+/// First element of a one-dimensional Postgres array literal (`{elem,elem}`; an element is bare, or
+/// double-quoted with backslash escaping the next character).
+fn pg_array_first_element(s: &str) -> Option<String> {
+    let cs: Vec<char> = s.chars().collect();
+    let mut i = 1;
+    let mut out = String::new();
+    if cs.get(i) == Some(&'"') {
+        i += 1;
+        loop {
+            match cs.get(i)? {
+                '\\' => {
+                    out.push(*cs.get(i + 1)?);
+                    i += 2;
+                }
+                '"' => return Some(out),
+                c => {
+                    out.push(*c);
+                    i += 1;
+                }
+            }
+        }
+    }
+    while let Some(c) = cs.get(i) {
+        if *c == ',' || *c == '}' {
+            break;
+        }
+        out.push(*c);
+        i += 1;
+    }
+    Some(out)
 }
 
 struct Templates {
